@@ -188,6 +188,48 @@ class VIndexSeq(Value):
 
 
 @dataclass
+class VIntArr(Value):
+    """a small concrete integer array (numpy index arithmetic with fixed sizes): row-major data and its shape"""
+    shape: tuple
+    data: list
+
+    def reshape(self, shape):
+        shape = list(shape)
+        n = len(self.data)
+        if -1 in shape:
+            k = shape.index(-1)
+            rest = 1
+            for i, x in enumerate(shape):
+                if i != k:
+                    rest *= x
+            shape[k] = n // rest if rest else 0
+        tot = 1
+        for x in shape:
+            tot *= x
+        if tot != n:
+            raise ValueError("cannot reshape")
+        return VIntArr(tuple(shape), list(self.data))
+
+    def transpose(self):
+        import itertools
+        shp = self.shape
+        strides = []
+        acc = 1
+        for x in reversed(shp):
+            strides.insert(0, acc)
+            acc *= x
+        new_shape = tuple(reversed(shp))
+        out = []
+        for idx in itertools.product(*[range(x) for x in new_shape]):
+            src = tuple(reversed(idx))
+            out.append(self.data[sum(i * st for i, st in zip(src, strides))])
+        return VIntArr(new_shape, out)
+
+    def flatten(self):
+        return VIntArr((len(self.data),), list(self.data))
+
+
+@dataclass
 class VClosure(Value):
     """a function defined inside a function: its code and the frame environment it closes over (by reference)"""
     func: object
